@@ -294,6 +294,23 @@ def shard(ctx, si, payload):
         if si == 0 and k == 0:
             for i in (0, 500, u.shape[1] - 1):
                 ctx.sample({"altitude_km": cfgt[0], "u": u[:, i].tolist(), "losPathLen": float(g.losPathLen[i]), "latS": float(g.latS[i]), "longS": float(g.longS[i]), "beta_deg": float(g.betaTrSubN[i]), "kept": bool(g.event_mask[i])})
+        # ---- history: the same random numbers thrown on an object that has already thrown as many
+        #      interior trajectories must give bit for bit what the fresh object gave
+        snap = {a: np.array(v, copy=True) for a, v in vars(g).items() if isinstance(v, np.ndarray)}
+        try:
+            gh = RegionGeom(cfg)
+            gh.throw(rng.uniform(0.05, 0.95, u.shape))
+            gh.throw(u0.copy())
+            ctx.count("history", u.shape[1])
+            for a, v in snap.items():
+                w_ = getattr(gh, a, None)
+                if not (isinstance(w_, np.ndarray) and w_.shape == v.shape and w_.tobytes() == v.tobytes()):
+                    d = np.flatnonzero(~((np.asarray(w_) == v) | (np.isnan(np.asarray(w_, dtype=float)) & np.isnan(v.astype(float))))) if isinstance(w_, np.ndarray) and w_.shape == v.shape else np.zeros(1, int)
+                    i = int(d[0]) if d.size else 0
+                    ctx.violation("history", f"altitude {cfgt[0]} km: after an earlier throw of the same size, throw(u) leaves {a}[{i}] = {np.asarray(w_).ravel()[i] if isinstance(w_, np.ndarray) and w_.size > i else w_!r} for u = {u0[:, i].tolist()}; a fresh object gives {v.ravel()[i]!r} ({d.size} of {v.size} entries differ)", {"cfg": cfgt, "attribute": a, "event": i, "u": [float(x).hex() for x in u0[:, i]], "sequence": "throw(interior, N); throw(u, N)"})
+                    break
+        except Exception as e:
+            ctx.exception("raises", "second throw of the same size on one object raised", e, {"cfg": cfgt})
         # ---- a second throw on the same object, then positions again (no state may survive a throw)
         try:
             u2 = rng.uniform(0, 1, (4, int(rng.choice([1, 7, 3000]))))
@@ -324,7 +341,7 @@ def run(ctx):
     nsh = ctx.pick(6, 16)
     payloads = [{"cfgs": cfgs[i::nsh], "nint": nint} for i in range(nsh)]
     core.run_shards(ctx, "nssmon.checks.c02", "shard", payloads, workers=nsh)
-    for m in ("range", "inverse-cdf", "inverse-cdf-decimal", "monotone", "spot", "emergence", "mask", "along", "along-after-rethrow", "call"):
+    for m in ("range", "inverse-cdf", "inverse-cdf-decimal", "monotone", "spot", "emergence", "mask", "along", "along-after-rethrow", "history", "call"):
         ctx.require(m)
     if ctx.obs.get("kept_events_seen", 0) < 1000:
         ctx.inconclusive_because("fewer than 1000 kept events were observed")
